@@ -73,6 +73,18 @@ func attField(d *core.VD, path ...string) bool {
 	return false
 }
 
+// dutyEpochOnly: the epoch of the duty's slot and nothing else — a bound widened by the clock (max(dutyEpoch,
+// CurrentEpoch())) lets a late run sign for an epoch the duty is not for.
+func dutyEpochOnly(d *core.VD) bool {
+	if !mentionsDutyEpoch(d) {
+		return false
+	}
+	widened := d.MentionsCall("CurrentEpoch") || d.MentionsCall("CurrentSlot") || d.MentionsCall("time.Now") || d.Any(func(x *core.VD) bool {
+		return x.Kind == "call" && (strings.HasSuffix(x.Name, "builtin:max") || strings.HasSuffix(x.Name, "builtin:min") || x.Name == "max" || x.Name == "min")
+	})
+	return !widened
+}
+
 func mentionsDutyEpoch(d *core.VD) bool {
 	if !d.MentionsCall("services/attester.Duty.Slot") {
 		return false
@@ -122,8 +134,8 @@ func attestationGuards() []namedGuard {
 		{"slot-equals-duty-slot", relGuard(slotX, slotY, map[string]bool{"==": true}), "data.Slot == duty.Slot()"},
 		// comparing the source with the duty epoch is equivalent, because target == duty epoch is required separately
 		{"source-not-above-target", relGuard(srcE, func(d *core.VD) bool { return tgtE(d) || mentionsDutyEpoch(d) }, map[string]bool{"<=": true, "<": true, "==": true}), "data.Source.Epoch <= data.Target.Epoch"},
-		{"target-not-above-duty-epoch", relGuard(tgtE, mentionsDutyEpoch, map[string]bool{"<=": true, "<": true, "==": true}), "data.Target.Epoch <= epoch(duty.Slot())"},
-		{"target-not-below-duty-epoch", relGuard(tgtE, mentionsDutyEpoch, map[string]bool{">=": true, ">": true, "==": true}), "data.Target.Epoch >= epoch(duty.Slot())"},
+		{"target-not-above-duty-epoch", relGuard(tgtE, dutyEpochOnly, map[string]bool{"<=": true, "<": true, "==": true}), "data.Target.Epoch <= epoch(duty.Slot())"},
+		{"target-not-below-duty-epoch", relGuard(tgtE, dutyEpochOnly, map[string]bool{">=": true, ">": true, "==": true}), "data.Target.Epoch >= epoch(duty.Slot())"},
 	}
 }
 
